@@ -94,7 +94,7 @@ class LogicBlock(SystemWideDevice, ModeDevice):
         self._state = LogicBlockState()
         self.value = self.get_start_value()
         await super().device_added_system_wide()
-        if not self.config['enable_events']:
+        if self._start_enabled:
             self.enable()
 
         if self.config['persist_state']:
